@@ -24,7 +24,7 @@ const (
 var purePackages = []string{
 	"strings", "unicode", "unicode/utf8", "path/filepath", "path", "go/types", "go/token", "go/ast",
 	"strconv", "math", "slices", "maps", "iter", "cmp", "errors", "context", "github.com/huandu/xstrings",
-	"github.com/Masterminds/semver/v3", "github.com/xeipuuv/gojsonschema", "golang.org/x/mod/modfile", "golang.org/x/mod/module",
+	"github.com/Masterminds/semver/v3", "github.com/go-errors/errors", "github.com/xeipuuv/gojsonschema", "golang.org/x/mod/modfile", "golang.org/x/mod/module",
 }
 
 var fsMutators = map[string]bool{
@@ -38,6 +38,37 @@ var fsMutators = map[string]bool{
 	"os.Mkdir": true, "os.MkdirAll": true, "os.Truncate": true, "os.Chmod": true, "os.Symlink": true, "os.Link": true,
 	"os.MkdirTemp": true, "os.CreateTemp": true, "io/ioutil.WriteFile": true, "os.(*File).Write": true, "os.(*File).WriteString": true,
 	"os.(*File).Truncate": true, "gopkg.in/yaml.v3.(*Encoder).Encode": true,
+	// go-git: everything that changes refs, objects, the index, the work tree or the configuration
+	"github.com/go-git/go-git/v5.(*Repository).CreateTag": true, "github.com/go-git/go-git/v5.(*Repository).DeleteTag": true,
+	"github.com/go-git/go-git/v5.(*Repository).CreateBranch": true, "github.com/go-git/go-git/v5.(*Repository).DeleteBranch": true,
+	"github.com/go-git/go-git/v5.(*Repository).CreateRemote": true, "github.com/go-git/go-git/v5.(*Repository).CreateRemoteAnonymous": true,
+	"github.com/go-git/go-git/v5.(*Repository).DeleteRemote": true, "github.com/go-git/go-git/v5.(*Repository).Push": true,
+	"github.com/go-git/go-git/v5.(*Repository).PushContext": true, "github.com/go-git/go-git/v5.(*Repository).Fetch": true,
+	"github.com/go-git/go-git/v5.(*Repository).FetchContext": true, "github.com/go-git/go-git/v5.(*Repository).SetConfig": true,
+	"github.com/go-git/go-git/v5.(*Repository).DeleteObject": true, "github.com/go-git/go-git/v5.(*Repository).Prune": true,
+	"github.com/go-git/go-git/v5.(*Repository).RepackObjects": true, "github.com/go-git/go-git/v5.(*Repository).Merge": true,
+	"github.com/go-git/go-git/v5.(*Worktree).Add": true, "github.com/go-git/go-git/v5.(*Worktree).AddWithOptions": true,
+	"github.com/go-git/go-git/v5.(*Worktree).AddGlob": true, "github.com/go-git/go-git/v5.(*Worktree).Commit": true,
+	"github.com/go-git/go-git/v5.(*Worktree).Checkout": true, "github.com/go-git/go-git/v5.(*Worktree).Reset": true,
+	"github.com/go-git/go-git/v5.(*Worktree).ResetSparsely": true, "github.com/go-git/go-git/v5.(*Worktree).Pull": true,
+	"github.com/go-git/go-git/v5.(*Worktree).PullContext": true, "github.com/go-git/go-git/v5.(*Worktree).Remove": true,
+	"github.com/go-git/go-git/v5.(*Worktree).RemoveGlob": true, "github.com/go-git/go-git/v5.(*Worktree).Move": true,
+	"github.com/go-git/go-git/v5.(*Worktree).Clean": true, "github.com/go-git/go-git/v5.(*Worktree).Restore": true,
+	"github.com/go-git/go-git/v5.PlainInit": true, "github.com/go-git/go-git/v5.PlainClone": true, "github.com/go-git/go-git/v5.Init": true,
+	"github.com/go-git/go-git/v5.Clone": true, "github.com/go-git/go-git/v5.PlainCloneContext": true, "github.com/go-git/go-git/v5.CloneContext": true,
+	"github.com/go-git/go-git/v5/plumbing/storer.(ReferenceStorer).SetReference": true, "github.com/go-git/go-git/v5/plumbing/storer.(ReferenceStorer).RemoveReference": true,
+	"github.com/go-git/go-git/v5/plumbing/storer.(ReferenceStorer).CheckAndSetReference": true,
+	"os/exec.(*Cmd).Run": true, "os/exec.(*Cmd).Start": true, "os/exec.(*Cmd).Output": true, "os/exec.(*Cmd).CombinedOutput": true,
+}
+
+// pureMethods: read-only accessors of otherwise opaque libraries, treated as functions of their arguments
+// (of the repository state, which no call in the verified functions changes before they are used).
+var pureMethods = map[string]bool{
+	"github.com/go-git/go-git/v5.(*Repository).TagObject": true, "github.com/go-git/go-git/v5.(Status).IsClean": true,
+	"github.com/go-git/go-git/v5.(Status).String": true,
+	"github.com/go-git/go-git/v5/plumbing.(*Reference).Hash": true, "github.com/go-git/go-git/v5/plumbing.(*Reference).Name": true,
+	"github.com/go-git/go-git/v5/plumbing.(ReferenceName).Short": true, "github.com/go-git/go-git/v5/plumbing.(ReferenceName).String": true,
+	"github.com/go-git/go-git/v5/plumbing.(Hash).String": true, "github.com/go-git/go-git/v5/plumbing.(Hash).IsZero": true,
 }
 
 var fsReaders = map[string]bool{
@@ -75,6 +106,9 @@ func (x *Exec) externalEffect(fn *types.Func) effect {
 	}
 	if fsReaders[name] {
 		return effFSRead
+	}
+	if pureMethods[name] {
+		return effPure
 	}
 	pp := pkgPathOf(fn)
 	if pp == "" { // universe (error.Error)
@@ -126,7 +160,16 @@ func (x *Exec) callExternal(call *ast.CallExpr, fn *types.Func, recv *Term, args
 		x.havocAll(st)
 	}
 	if h, ok := specialExternals[name]; ok {
+		if name != "github.com/brunoga/deep.Copy" { // (that handler may fall back to the generic model, which checks sites itself)
+			x.siteObligations(call, fn, recv, args, st)
+		}
 		return h(x, call, fn, recv, args, st)
+	}
+	if lit := isForEachLit(call); lit != nil && recv != nil {
+		x.siteObligations(call, fn, recv, args, st)
+		r := x.execForEach(call, lit, *recv, st)
+		x.noteLastErr(st, fn, r)
+		return r
 	}
 	return x.applyExternal(call, fn, x.externalEffect(fn), recv, args, st)
 }
@@ -168,6 +211,8 @@ func init() {
 	}
 	specialExternals["fmt.Errorf"] = nonNilErr
 	specialExternals["errors.New"] = nonNilErr
+	specialExternals["github.com/go-errors/errors.New"] = nonNilErr
+	specialExternals["github.com/go-errors/errors.Errorf"] = nonNilErr
 	// text/template: Parse remembers the template text, Execute renders it into the writer's buffer,
 	// (*bytes.Buffer).String reads the buffer. render(text, data) is an uninterpreted function:
 	// rendering is assumed deterministic (false only for randInt, listed as an assumption).
@@ -181,7 +226,6 @@ func init() {
 		return []Term{t, e}
 	}
 	specialExternals["text/template.(*Template).Execute"] = func(x *Exec, call *ast.CallExpr, fn *types.Func, recv *Term, args []Term, st *State) []Term {
-		x.siteObligations(call, fn, recv, args, st)
 		text := x.ctx.App("tmpl_text", SStr, *recv)
 		e := x.ctx.App("tmpl_exec_err", SInt, text, args[1])
 		out := x.ctx.App("spec_render", SStr, text, args[1])
@@ -408,6 +452,11 @@ func (x *Exec) siteObligations(call *ast.CallExpr, fn *types.Func, recv *Term, a
 		sig := fn.Type().(*types.Signature)
 		if recv != nil {
 			env.binds["$recv"] = bound{*recv, sig.Recv().Type()}
+		} else if fn.Pkg() != nil && fn.Pkg().Path() == "github.com/spf13/viper" {
+			// package-level viper functions act on the package's global instance
+			if tn, ok := fn.Pkg().Scope().Lookup("Viper").(*types.TypeName); ok {
+				env.binds["$recv"] = bound{x.ctx.App("viper_global_instance", SInt), types.NewPointer(tn.Type())}
+			}
 		}
 		for i, a := range args {
 			if i < sig.Params().Len() {
